@@ -505,10 +505,72 @@ def range_rules(R, lib):
         Engine(GR()).run(f.body)
         if not seen_test:
             raise AnalysisError('%s: no [startYear, untilYear] test found in init()' % f.loc)
+        accept_rule(R, lib, cls, f)
         # accessors
         for acc, want in (('getUtcOffset', 'offset'), ('getDeltaOffset', 'offset'), ('getAbbrev', 'str'), ('getOffsetDateTime', 'odt')):
             af = lib.fn(cls + '::' + acc)
             error_return_rule(R, lib, af, want)
+
+
+def accept_rule(R, lib, cls, f):
+    """init() must accept every UTC date of the supported years [startYear, untilYear): its guarded summary is evaluated
+    on the corner dates (first/second day and last day of the first, a middle and the last supported year) with
+    startYear/untilYear symbolic-but-fixed; the path taken must be a success path.  (The basic processor moves the cache
+    year back by one on 1 January, so its guard has to admit startYear - 1.)"""
+    from .gnf import SymExec, Poly, eval_formula, arith_assign
+    R.rule('R4-accept', 'init() accepts every date of the supported years [startYear, untilYear) on a cold cache', floor=2)
+    s = SymExec(fold_global=lib.global_value).run(f.name, f.body, {})
+    S_, U_ = 2000, 2050
+    epoch = lib.const('ace_time::LocalDate::kEpochYear')
+    c = '%s:accepts[startYear,untilYear)' % f.name
+    R.instance('R4-accept', c, f.loc, '%d paths' % len(s.paths))
+    bad = []
+    for (y, m, d) in ((S_, 1, 1), (S_, 1, 2), (S_, 12, 31), (S_ + 1, 1, 1), (2025, 6, 15), (U_ - 1, 1, 1), (U_ - 1, 12, 31)):
+        vals = {'year': y, 'yearTiny': y - epoch, 'month': m, 'day': d, 'startYear': S_, 'untilYear': U_}
+        base = arith_assign({})
+
+        def assign(a, vals=vals, base=base):
+            if a[0] == 'fn':
+                nm = a[1].split('::')[-1]
+                if nm in vals:
+                    return vals[nm]
+                if nm == 'isFilled':
+                    return 0
+                return None
+            if a[0] == 'sym':
+                return None
+            # arithmetic atoms over the above
+            from .gnf import eval_poly
+            try:
+                if a[0] in ('tdiv', 'fdiv', 'div', 'tmod', 'fmod', 'mod'):
+                    x = eval_poly(Poly(dict(a[1])), assign)
+                    z = eval_poly(Poly(dict(a[2])), assign)
+                    q = abs(x) // abs(z)
+                    q = q if (x >= 0) == (z >= 0) else -q
+                    return q if a[0] in ('tdiv', 'div') else x // z if a[0] == 'fdiv' else x - q * z if a[0] in ('tmod', 'mod') else x % z
+                if a[0] == 'cmp':
+                    x = eval_poly(Poly(dict(a[2])), assign)
+                    z = eval_poly(Poly(dict(a[3])), assign)
+                    return int({'<': x < z, '<=': x <= z, '>': x > z, '>=': x >= z, '==': x == z, '!=': x != z}[a[1]])
+            except KeyError:
+                return None
+            return None
+        outcomes = set()
+        undecided = False
+        for g, kind, res, eff in s.paths:
+            try:
+                if eval_formula(g, assign):
+                    outcomes.add((kind, Poly(dict(res)).const_value() if res is not None and Poly(dict(res)).is_const() else None))
+            except KeyError:
+                undecided = True
+        if undecided or len(outcomes) != 1:
+            raise AnalysisError('%s: the guards of init() could not be evaluated for the date %04d-%02d-%02d (%s)' % (f.loc, y, m, d, sorted(outcomes, key=str)))
+        (kind, val), = outcomes
+        if not (kind == 'return' and val == 1):
+            bad.append('%04d-%02d-%02d' % (y, m, d))
+    if bad:
+        R.violation('R4-accept', c, f.loc, 'with startYear=%d and untilYear=%d a cold init() fails for the UTC date(s) %s, which lie in the supported years: every '
+                    'offset, abbreviation and conversion for those instants is the error value' % (S_, U_, ', '.join(bad)))
 
 
 def _is_error_value(lib, e, want, defs, depth=0):
@@ -641,10 +703,144 @@ def table_rules(cfg, R, lib):
             R.violation('R5-anchor', '%s::%s' % (db, p), '?', 'zone era references an undefined policy')
 
 
+def estimator_rule(cfg, R):
+    """transitionBufSize recorded in the extended tables is the maximum, over matches, of (candidates of the match +
+    transitions already kept for the year): _update_transition_buffer_size() reads len(self.transitions) for the second
+    term, so every loop through which it is reached has to grow self.transitions per iteration - an accumulation moved
+    behind the loop makes the estimate ignore the earlier matches, and the pool of the C++ processor then needs more
+    slots than the table records."""
+    import ast
+    from . import py
+    m = py.load(cfg, 'tools/zonedb/zone_specifier.py')
+    R.rule('R5-est', 'the buffer-size estimator sees the transitions of earlier matches: self.transitions grows inside every loop that reaches it', floor=1)
+    cls = 'ZoneSpecifier'
+    reader = cls + '._update_transition_buffer_size'
+    rf = m.fn(reader)
+    reads = {x.args[0].attr for x in ast.walk(rf.node) if isinstance(x, ast.Call) and isinstance(x.func, ast.Name) and x.func.id == 'len'
+             and x.args and isinstance(x.args[0], ast.Attribute) and isinstance(x.args[0].value, ast.Name) and x.args[0].value.id == 'self'}
+    if not reads:
+        raise AnalysisError('%s: the estimator no longer reads len(self.<attr>) (anchor moved)' % rf.loc)
+    memo_reach, memo_write = {}, {}
+
+    def self_calls(node):
+        return [x.func.attr for x in ast.walk(node) if isinstance(x, ast.Call) and isinstance(x.func, ast.Attribute)
+                and isinstance(x.func.value, ast.Name) and x.func.value.id == 'self']
+
+    def reaches_reader(name, depth=0):
+        q = '%s.%s' % (cls, name)
+        if q == reader:
+            return True
+        if q in memo_reach:
+            return memo_reach[q]
+        memo_reach[q] = False
+        g = m.funcs.get(q)
+        if g is not None and depth < 6:
+            memo_reach[q] = any(reaches_reader(c, depth + 1) for c in self_calls(g.node))
+        return memo_reach[q]
+
+    def writes(node, attr, depth=0):
+        for x in ast.walk(node):
+            if isinstance(x, ast.Call) and isinstance(x.func, ast.Attribute) and x.func.attr in ('extend', 'append', 'insert') \
+                    and isinstance(x.func.value, ast.Attribute) and x.func.value.attr == attr and isinstance(x.func.value.value, ast.Name) and x.func.value.value.id == 'self':
+                return True
+            if isinstance(x, (ast.Assign, ast.AugAssign)):
+                for t in (x.targets if isinstance(x, ast.Assign) else [x.target]):
+                    if isinstance(t, ast.Attribute) and t.attr == attr and isinstance(t.value, ast.Name) and t.value.id == 'self':
+                        return True
+        if depth < 5:
+            for c in self_calls(node):
+                q = '%s.%s' % (cls, c)
+                if (q, attr) not in memo_write:
+                    memo_write[(q, attr)] = False
+                    g = m.funcs.get(q)
+                    memo_write[(q, attr)] = g is not None and writes(g.node, attr, depth + 1)
+                if memo_write[(q, attr)]:
+                    return True
+        return False
+    n = 0
+    for q, g in m.funcs.items():
+        if g.cls != cls:
+            continue
+        for lp in [x for x in ast.walk(g.node) if isinstance(x, (ast.For, ast.While))]:
+            body = ast.Module(body=lp.body, type_ignores=[])
+            if not any(reaches_reader(c) for c in self_calls(body)):
+                continue
+            for attr in sorted(reads):
+                n += 1
+                c = '%s:loop@%d:%s' % (q, lp.lineno - g.node.lineno, attr)
+                R.instance('R5-est', c, m.loc(lp))
+                if not writes(body, attr):
+                    R.violation('R5-est', c, m.loc(lp), 'the loop reaches _update_transition_buffer_size(), which adds len(self.%s), but self.%s is not grown inside the loop: '
+                                'the estimate for a later match ignores the transitions of the earlier matches, so the recorded transitionBufSize can be '
+                                'smaller than what ExtendedZoneProcessor needs' % (attr, attr))
+    if not n:
+        raise AnalysisError('%s: no loop reaches the buffer-size estimator (anchor moved)' % rf.loc)
+
+
+VALUE_TYPES = ('LocalDate', 'LocalTime', 'LocalDateTime', 'OffsetDateTime', 'TimeOffset')
+COMPOSITES = ('LocalDateTime', 'OffsetDateTime', 'ZonedDateTime')
+
+
+def composite_error_rule(R, lib):
+    """A composite date-time is an error exactly when one of its date/time/offset components is: isError() of
+    LocalDateTime, OffsetDateTime and ZonedDateTime is the disjunction of isError() over the members whose type is one of
+    the value types (the TimeZone member of ZonedDateTime is excluded: every factory returns forError() for an error zone,
+    which C09-R3 and C16 decide)."""
+    from .gnf import SymExec, Poly, formula_atoms, eval_formula
+    import itertools
+    R.rule('R7', 'isError() of a composite date-time is the disjunction of isError() of its date, time and offset members', floor=3)
+    for cls in COMPOSITES:
+        q = 'ace_time::%s' % cls
+        f = lib.fn(q + '::isError')
+        members = [n for n, t, _node in lib.fields(q) if any((t or '').replace('const', '').strip() in ('ace_time::' + v, v) for v in VALUE_TYPES)]
+        c = '%s::isError' % cls
+        R.instance('R7', c, f.loc, 'members %s' % members)
+        if not members:
+            raise AnalysisError('%s: %s has no date/time/offset members (anchor moved)' % (f.loc, cls))
+        sx = SymExec(fold_global=lib.global_value)
+        sx.bool_return = True
+        s = sx.run(f.name, f.body, {})
+        atoms = {}
+        for g, kind, res, eff in s.paths:
+            for a in formula_atoms(g):
+                if a[0] == 'bool':
+                    p = Poly(dict(a[1]))
+                    at = list(p.atoms())
+                    if len(at) == 1 and at[0][0] == 'fn' and at[0][1].endswith('::isError') and len(at[0][2]) == 1:
+                        recv = Poly(dict(at[0][2][0]))
+                        ra = list(recv.atoms())
+                        if len(ra) == 1 and ra[0][0] == 'sym' and ra[0][1].startswith('this.'):
+                            atoms[ra[0][1][5:]] = at[0]
+        missing = [m for m in members if m not in atoms]
+        if missing:
+            R.violation('R7', c, f.loc, 'isError() does not consult %s.isError(): a value whose only invalid component is %s passes for valid '
+                        '(it is printed, converted and compared as if it were a date-time)' % (missing[0], missing[0]))
+            continue
+        names = sorted(atoms)
+        bad = None
+        for bits in itertools.product((0, 1), repeat=len(names)):
+            env = {atoms[n]: b for n, b in zip(names, bits)}
+            vals = set()
+            for g, kind, res, eff in s.paths:
+                try:
+                    if eval_formula(g, lambda a: env.get(a)):
+                        vals.add(Poly(dict(res)).const_value() if res is not None and Poly(dict(res)).is_const() else None)
+                except KeyError:
+                    vals.add(None)
+            want = int(any(b for n, b in zip(names, bits) if n in members))
+            if vals != {want}:
+                bad = dict(zip(names, bits))
+                break
+        if bad is not None:
+            R.violation('R7', c, f.loc, 'isError() is not the disjunction of its components: for %s it answers %s' % (bad, sorted(vals, key=str)))
+
+
 def run(cfg):
     R = Report('C09', cfg)
     lib = cxx.load_lib(cfg)
     R.analysed['translation_units'] = ['tu/lib.cpp', 'tu/tables_zonedb.cpp', 'tu/tables_zonedbx.cpp']
+    composite_error_rule(R, lib)
+    estimator_rule(cfg, R)
     nullable_rules(R, lib)
     sentinel_rules(R, lib)
     range_rules(R, lib)
@@ -657,6 +853,23 @@ def run(cfg):
 
 
 SELFTEST = [
+    dict(id='estimator-sees-empty-transitions', file='tools/zonedb/zone_specifier.py',
+         find='        for match in matches:\n            transitions_for_match = self._find_transitions_for_match(match)\n            self.transitions.extend(transitions_for_match)\n',
+         replace='        transitions: List[Transition] = []\n        for match in matches:\n            transitions.extend(self._find_transitions_for_match(match))\n        self.transitions = transitions\n',
+         rule='R5-est'),
+    dict(id='estimator-loop-spelling-silent', file='tools/zonedb/zone_specifier.py',
+         find='            transitions_for_match = self._find_transitions_for_match(match)\n            self.transitions.extend(transitions_for_match)\n',
+         replace='            self.transitions = self.transitions + self._find_transitions_for_match(match)\n', expect='silent'),
+    dict(id='basic-range-guard-rejects-jan-1', file='src/ace_time/BasicZoneProcessor.h',
+         find='      if (yearTiny + LocalDate::kEpochYear < mZoneInfo.startYear() - 1', replace='      if (yearTiny + LocalDate::kEpochYear < mZoneInfo.startYear()', rule='R4-accept', construct='BasicZoneProcessor'),
+    dict(id='extended-range-guard-rejects-last-year', file='src/ace_time/ExtendedZoneProcessor.h',
+         find='      if (year < mZoneInfo.startYear() - 1 || mZoneInfo.untilYear() < year) {', replace='      if (year < mZoneInfo.startYear() - 1 || mZoneInfo.untilYear() <= year + 1) {', rule='R4-accept', construct='ExtendedZoneProcessor'),
+    dict(id='composite-iserror-date-only', file='src/ace_time/LocalDateTime.h',
+         find='      return mLocalDate.isError() || mLocalTime.isError();', replace='      return mLocalDate.isError();', rule='R7', construct='LocalDateTime'),
+    dict(id='composite-iserror-conjunction', file='src/ace_time/OffsetDateTime.h',
+         find='      return  mTimeOffset.isError() || mLocalDateTime.isError();', replace='      return  mTimeOffset.isError() && mLocalDateTime.isError();', rule='R7', construct='OffsetDateTime'),
+    dict(id='composite-iserror-order-silent', file='src/ace_time/OffsetDateTime.h',
+         find='      return  mTimeOffset.isError() || mLocalDateTime.isError();', replace='      if (mLocalDateTime.isError()) return true;\n      return mTimeOffset.isError();', expect='silent'),
     dict(id='null-test-dropped-getUtcOffset', file='src/ace_time/ExtendedZoneProcessor.h',
          find='      return (transition)\n          ? TimeOffset::forMinutes(\n              transition->offsetMinutes + transition->deltaMinutes)\n          : TimeOffset::forError();\n    }\n\n    TimeOffset getDeltaOffset',
          replace='      return TimeOffset::forMinutes(\n              transition->offsetMinutes + transition->deltaMinutes);\n    }\n\n    TimeOffset getDeltaOffset', rule='R1', construct='getUtcOffset'),
